@@ -219,8 +219,8 @@ theorem decision_matches_ownership {s : State} (h : Reach s) (t a o : Nat)
   · exact inBlock_hasAcq (hi.wf t).st
 
 /-- **Released on every way out.** Let thread `t` execute the body of its innermost block, whose
-    frame is `⟨a, acq⟩`. For each of the five outcomes `k` (normal end, error, return, break,
-    continue) the exit is enabled and never blocks; if the frame acquired the lock, the exit
+    frame is `⟨a, acq⟩`. For each outcome `k` (normal end, error, return, break, continue, panic;
+    `step = stepD true`: the release is deferred — `outcome_matters_only_without_defer`) the exit is enabled and never blocks; if the frame acquired the lock, the exit
     (`bodyEnd`, `resetOwner`, `unlock`) ends with the mutex of `a` unlocked, owner 0, nobody
     holding it and the frame popped; if the frame was re-entrant, the pop leaves the mutex of `a`
     exactly as it was (still locked, still owned by `t`). -/
@@ -278,7 +278,7 @@ theorem release_steps_never_block (s : State) (t a : Nat) :
     ((s.thr t).pc = .unlocking a → (step s (.unlock t)).isSome = true) := by
   constructor <;> intro hp <;> simp [step, hp]
 
-/-- **A later entrant always gets in.** No reachable state has a thread blocked at `mutex.Lock()`
+/-- **A later entrant is never locked out (safety part; progress: `waiter_progress`).** No reachable state has a thread blocked at `mutex.Lock()`
     of name `a` while no thread holds `a`: if nobody holds it, the `lock` event of the waiting
     thread is enabled. (A thread holds `a` only while it is inside a block of `a` or inside the
     entry/exit protocol — `Thread.holds` — so a lock is never left behind by a thread that has
@@ -317,6 +317,69 @@ theorem locked_has_live_holder {s : State} (h : Reach s) (a : Nat) (hl : (s.mtx 
       simp [hp, pcWf] at this
       simp [Thread.holds, hp, pcHolds, this] at hh
 
+/-- **Release, step by step.** In any reachable state — whatever other threads did since the
+    body ended — the `unlock` step of a thread leaves the name free: unlocked, owner 0, no holder. -/
+theorem unlock_frees_name {s s' : State} (h : Reach s) (t a : Nat)
+    (hp : (s.thr t).pc = .unlocking a) (hs : step s (.unlock t) = some s') :
+    (s'.mtx a).locked = false ∧ (s'.mtx a).owner = 0 ∧ (s'.mtx a).holder = none := by
+  have hi := inv_reach h
+  have hgt : (s.mtx a).holder = some t := (hi.hold a t).mp (by simp [Thread.holds, hp, pcHolds])
+  have hacq : hasAcq (s.thr t).stack a = false := by
+    have := (hi.wf t).pc; simpa [hp, pcWf] using this
+  have ho : (s.mtx a).owner = 0 := by
+    cases hx : (s.mtx a).owner with
+    | zero => rfl
+    | succ n =>
+      have hreg := (hi.own a (n + 1)).mpr ⟨hx, by omega⟩
+      have := (hi.hold a (n + 1)).mp (ownerReg_holds hreg)
+      rw [hgt] at this
+      have e : t = n + 1 := Option.some.inj this
+      rw [← e] at hreg
+      simp [Thread.ownerReg, hp, pcOwner, hacq] at hreg
+  simp only [step, hp] at hs
+  cases hs
+  simp [ho]
+
+/-- **Progress of a waiter.** In every reachable state a thread `t` that waits for the mutex of
+    name `a` either can take it now, or the mutex is held by another thread `x` that is executing
+    its body, or has an enabled protocol step of its own, or is itself waiting for a *different*
+    name `b`. So the protocol alone never blocks anybody for good: a wait cycle needs at least two
+    names, taken in conflicting orders by the program. -/
+theorem waiter_progress {s : State} (h : Reach s) (t a : Nat) (hp : (s.thr t).pc = .wantLock a) :
+    (step s (.lock t)).isSome = true ∨
+    ∃ x, x ≠ t ∧ (s.thr x).holds a = true ∧
+      ((s.thr x).pc = .run ∨ (∃ e, thread e = x ∧ (step s e).isSome = true) ∨
+        ∃ b, b ≠ a ∧ (s.thr x).pc = .wantLock b) := by
+  cases hl : (s.mtx a).locked with
+  | false => left; simp [step, hp, hl]
+  | true =>
+    right
+    obtain ⟨x, _, hh, hne⟩ := locked_has_live_holder h a hl
+    have hxt : x ≠ t := by intro e; subst e; exact hne hp
+    refine ⟨x, hxt, hh, ?_⟩
+    cases hpx : (s.thr x).pc with
+    | run => left; rfl
+    | decide a' o =>
+      right; left; refine ⟨.decide x, rfl, ?_⟩
+      simp only [step, hpx]; split <;> rfl
+    | wantLock b =>
+      right; right; refine ⟨b, ?_, rfl⟩
+      intro e; subst e; exact hne hpx
+    | lockedNoOwner b => right; left; exact ⟨.setOwner x, rfl, by simp [step, hpx]⟩
+    | releasing b => right; left; exact ⟨.resetOwner x, rfl, by simp [step, hpx]⟩
+    | unlocking b => right; left; exact ⟨.unlock x, rfl, by simp [step, hpx]⟩
+
+/-- Single-name corollary: if all waiting in the system is for one name `a`, then whenever some
+    thread waits, some thread is in a body or some event is enabled — no protocol deadlock. -/
+theorem single_name_no_deadlock {s : State} (h : Reach s) (t a : Nat)
+    (hp : (s.thr t).pc = .wantLock a) (hone : ∀ x b, (s.thr x).pc = .wantLock b → b = a) :
+    (∃ x, (s.thr x).pc = .run ∧ (s.thr x).holds a = true) ∨ ∃ e, (step s e).isSome = true := by
+  rcases waiter_progress h t a hp with h1 | ⟨x, _, hh, h2 | ⟨e, _, he⟩ | ⟨b, hb, hpb⟩⟩
+  · exact Or.inr ⟨_, h1⟩
+  · exact Or.inl ⟨x, h2, hh⟩
+  · exact Or.inr ⟨e, he⟩
+  · exact absurd (hone x b hpb) hb
+
 /-- **No lost update.** A variable that is read and written only inside blocks of one name
     (`read`/`write` events are enabled only there; the increment is *not* atomic: any number of
     events of other threads may come between the read and the write) always holds the number of
@@ -347,23 +410,80 @@ example : (step init (.read 1 0)).isSome = false := by decide
 
 The ordered synchronisation skeleton of `mutexRuntime.Eval` (`Ecal.Gen.C12.skeleton`) is
 regenerated and recorded in the evidence; a change of it is *not* a failure (restructuring the
-function changes it) but makes the same run search harder. What must hold however the code is
-written are the two facts below (and `newThreadID_is_one_critical_section` further down): they
-are what makes a table section one atomic event of the model, and what makes `bodyEnd` always be
-followed by the release. -/
+function changes it) but makes the same run search harder. What the model relies on are the facts
+below. Each is a list of classified observations with a three-valued verdict: `some false` =
+refuted (an obligation fails), `none` = the extractor cannot tell for at least one observation
+(the check searches harder and says so), `some true` = established. -/
 
-/-- Every access to `erp.Mutexes` / `erp.MutexeOwners` in package `interpreter` happens with
-    `MutexesMutex` held (between its Lock and Unlock, or after its Lock when the Unlock is
-    deferred) — in `mutexRuntime.Eval` itself or in whatever helper the access lives in. -/
-theorem table_accesses_under_table_lock :
-    (Ecal.Gen.C12.tableAccesses.all fun a => a.2) = true ∧ Ecal.Gen.C12.tableAccesses ≠ [] := by decide
+/-- verdict of a classified list: refuted by one `bad` entry, unknown if any entry is neither -/
+def verdict (good bad : String) (xs : List (String × String)) : Option Bool :=
+  if xs.any (fun x => x.2 = bad) then some false
+  else if xs.isEmpty || xs.any (fun x => x.2 != good) then none
+  else some true
 
-/-- In `mutexRuntime.Eval` the `Unlock` of the named mutex is deferred right after its `Lock`,
-    unconditionally (directly or as a statement of a deferred function literal), and there is no
-    `Unlock` that is not deferred: it runs on every way out of the acquiring path and never before
-    the body. -/
+/-- **Table sections are atomic.** No use of `erp.Mutexes` / `erp.MutexeOwners` anywhere in the
+    tree — index, delete, len, range; in a callee the table is passed to; through a struct field
+    it was stored in (alias) — is found outside `MutexesMutex` (or an alias of that lock). Uses
+    the extractor cannot follow (the table or an alias used as a plain value) are `unknown`, not
+    refuted: see the evidence (`facts_unknown`). -/
+theorem table_uses_under_table_lock :
+    verdict "guarded" "unguarded" Ecal.Gen.C12.tableUses ≠ some false := by decide
+
+/-- **The release is deferred.** In `mutexRuntime.Eval` every `m.Lock()` on a local mutex is
+    followed in the same statement list by an unconditional deferred `m.Unlock()`, with nothing
+    in between that can leave the function (return, branch, loop: refuted; a call other than
+    logging / table-lock operations: unknown), and no `m.Unlock()` that is not deferred. This is
+    the `deferred = true` of `stepD`: the release runs on every outcome, panic included. -/
 theorem unlock_deferred_on_acquiring_path :
-    (Ecal.Gen.C12.releases.all fun a => a.2) = true ∧ Ecal.Gen.C12.releases ≠ [] := by decide
+    verdict "ok" "bad" Ecal.Gen.C12.releases ≠ some false := by decide
+
+/-- **Order of the protocol steps and section boundaries** (read off the skeleton): `M.Lock`
+    before `O[N]=tid`; `O[N]=0` before `M.Unlock` in the execution order of the deferred calls;
+    `M[N]` written only when absent; `M.Lock`, `M.Unlock` and the body outside `MutexesMutex`
+    sections (a blocking operation inside a section would make every name block every name). -/
+theorem protocol_order_facts :
+    verdict "true" "false" Ecal.Gen.C12.orderFacts ≠ some false := by decide
+
+example : verdict "true" "false" [("a", "true"), ("b", "false")] = some false := by decide
+example : verdict "true" "false" [("a", "true"), ("b", "unknown")] = none := by decide
+example : verdict "true" "false" [("a", "true")] = some true := by decide
+
+/-! #### Why these facts: the properties fail for the variant protocols -/
+
+/-- Negative witness (`O[N]=0` *after* `M.Unlock`): thread 1 unlocks, thread 2 takes the lock and
+    registers, then thread 1's late reset wipes thread 2's ownership; thread 2's next nested
+    entry takes the locking branch and waits for the mutex it holds itself — a self-deadlock that
+    is impossible in the real protocol (`locked_has_live_holder`). -/
+theorem unlock_before_reset_self_deadlock :
+    (runWith (stepV .unlockBeforeReset) init [.look 1 0, .decide 1, .lock 1, .setOwner 1, .bodyEnd 1 .normal,
+      .unlock 1, .look 2 0, .decide 2, .lock 2, .setOwner 2, .resetOwner 1, .look 2 0, .decide 2]).map
+      (fun s => ((s.thr 2).pc, inBlock (s.thr 2).stack 0, (s.mtx 0).holder, (s.mtx 0).owner,
+        (step s (.lock 2)).isSome)) = some (.wantLock 0, true, some 2, 0, false) := by decide
+
+/-- Negative witness (`O[N]=tid` *before* `M.Lock`): a waiting thread overwrites the owner; the
+    thread inside no longer recognises itself and blocks on its own lock at the next nested entry. -/
+theorem owner_before_lock_self_deadlock :
+    (runWith (stepV .ownerBeforeLock) init [.look 1 0, .decide 1, .lock 1, .setOwner 1, .look 2 0, .decide 2,
+      .setOwner 2, .look 1 0, .decide 1]).map
+      (fun s => ((s.thr 1).pc, inBlock (s.thr 1).stack 0, (s.mtx 0).holder, (step s (.lock 1)).isSome))
+      = some (.wantLock 0, true, some 1, false) := by decide
+
+/-- Negative witness (release *not* deferred): a body that ends by an error leaves the mutex
+    locked with nobody holding it; the next entrant waits forever. With the deferred release
+    (`stepD true = step`) this cannot happen for any outcome: `released_on_every_exit`,
+    `later_entrant_gets_in`. -/
+theorem without_defer_error_leaks_lock :
+    (runWith (stepD false) init [.look 1 0, .decide 1, .lock 1, .setOwner 1, .bodyEnd 1 .error,
+      .look 2 0, .decide 2]).map
+      (fun s => ((s.mtx 0).locked, (s.thr 1).holds 0, (s.thr 1).stack.length, (s.thr 2).pc,
+        (stepD false s (.lock 2)).isSome)) = some (true, false, 0, .wantLock 0, false) := by decide
+
+/-- … and the outcome matters only there: with the deferred release all six outcomes (normal end,
+    error, return, break, continue, panic) do the same, without it only the normal end releases. -/
+theorem outcome_matters_only_without_defer (s : State) (t : Nat) (k k' : Outcome) :
+    stepD true s (.bodyEnd t k) = stepD true s (.bodyEnd t k') ∧
+    stepD false s (.bodyEnd t .normal) = step s (.bodyEnd t .normal) := by
+  constructor <;> simp [stepD, step]
 
 /-! ### Thread ids are > 0 and pairwise distinct
 
@@ -406,6 +526,14 @@ theorem id_counter_monotone :
 
 example : ThreadId.counterMonotone [("NewThreadID", "inc"), ("JoinAll", "assign")] = some false := by decide
 example : ThreadId.counterMonotone [("NewThreadID", "inc"), ("f", "unknown")] = none := by decide
+
+/-- The pool's constructor starts the id counter at a value ≥ 1 (regenerated:
+    `Ecal.Gen.C12.idCounterInit`, `none` = cannot tell): thread id 0 is never handed out. With
+    `tid = 0` the Go code would enter a released name without locking (`owner == tid`); the model
+    forbids thread 0 (`step s (.look 0 a) = none`). -/
+theorem id_counter_starts_positive : Ecal.Gen.C12.idCounterInit ≠ some 0 := by decide
+
+example (s : State) (a : Nat) : step s (.look 0 a) = none := by simp [step]
 
 /-- The shape of `NewThreadID` extracted from `/repo` on every run (`Ecal.Gen.C12.idSkeleton`):
     the read and the increment of the id counter happen inside ONE critical section (or are one
